@@ -385,10 +385,19 @@ func (a *FlowAnalysis) runFunc(f *ssa.Function) {
 	}
 }
 
-// NewFlowAnalysis runs the analysis over the given packages to a fixpoint.
+// Flow runs the analysis over sqlx + schema + the three dialects together.
 func (c *Ctx) Flow() *FlowAnalysis {
-	if c.flow != nil {
-		return c.flow
+	return c.FlowFor("all", map[string]bool{pSqlx: true, pSqlite: true, pMysql: true, pPostgres: true, pSchema: true})
+}
+
+// FlowFor runs the analysis restricted to the given packages (interface
+// calls are resolved to methods of these packages only), to a fixpoint.
+func (c *Ctx) FlowFor(key string, want map[string]bool) *FlowAnalysis {
+	if c.flows == nil {
+		c.flows = map[string]*FlowAnalysis{}
+	}
+	if a := c.flows[key]; a != nil {
+		return a
 	}
 	prog := c.SSA()
 	a := &FlowAnalysis{c: c, prog: prog, vals: map[ssa.Value]*kval{}, cells: map[ssa.Value]*kval{}, tuples: map[tupleKey]*kval{}, fields: map[string]*kval{},
@@ -398,7 +407,6 @@ func (c *Ctx) Flow() *FlowAnalysis {
 		c.fail("schema.Change not found")
 	}
 	a.changeIfc = ch.Underlying().(*types.Interface)
-	want := map[string]bool{pSqlx: true, pSqlite: true, pMysql: true, pPostgres: true, pSchema: true}
 	for f := range ssautil.AllFunctions(prog) {
 		top := topParent(f)
 		p := ""
@@ -440,7 +448,7 @@ func (c *Ctx) Flow() *FlowAnalysis {
 	for _, f := range a.fns {
 		a.runFunc(f)
 	}
-	c.flow = a
+	c.flows[key] = a
 	return a
 }
 
